@@ -1,7 +1,9 @@
 package ag
 
 import (
+	"fmt"
 	"math/big"
+	"sort"
 
 	sdk "github.com/cosmos/cosmos-sdk/types"
 	authtypes "github.com/cosmos/cosmos-sdk/x/auth/types"
@@ -21,6 +23,14 @@ type vestModel struct {
 }
 
 func rewardVariant(k int64) sdk.Coins {
+	if kernel.Mod(k, 48) >= 40 {
+		// a long list (the pool holds these denominations only in the many-denomination genesis kinds)
+		var out sdk.Coins
+		for i := 0; i < 8+int(kernel.Mod(k, 48)-40)*3; i++ {
+			out = append(out, sdk.NewCoin(fmt.Sprintf("rwd%02d", i), sdk.NewInt(int64(2+i))))
+		}
+		return out
+	}
 	switch kernel.Mod(k, 16) {
 	case 13:
 		// denominations that start with digits or a blank followed by a valid denomination (amount and
@@ -129,7 +139,12 @@ func (w *world) afterBeginBlock(pre *vestSnap) {
 		denoms[d] = true
 	}
 	moved := false
+	var dlist []string
 	for d := range denoms {
+		dlist = append(dlist, d)
+	}
+	sort.Strings(dlist) // violations are reported in a fixed order: replays must have equal fingerprints
+	for _, d := range dlist {
 		out := new(big.Int).Sub(bi(pre.pool, d), bi(post.pool, d))
 		in := new(big.Int).Sub(bi(post.sink, d), bi(pre.sink, d))
 		exp := bi(want, d)
@@ -151,8 +166,13 @@ func (w *world) afterBeginBlock(pre *vestSnap) {
 			moved = true
 		}
 	}
-	for d, v := range pre.supply {
-		if bi(post.supply, d).Cmp(v) != 0 {
+	var slist []string
+	for d := range pre.supply {
+		slist = append(slist, d)
+	}
+	sort.Strings(slist)
+	for _, d := range slist {
+		if v := pre.supply[d]; bi(post.supply, d).Cmp(v) != 0 {
 			w.rec.Violate("C20", "supply_changed", "begin_block", "total supply of %s changed in BeginBlock", d)
 		}
 	}
